@@ -23,9 +23,25 @@ OFFM = [0, 1, 7, 8, 56, 63]
 SIZES = [0, 1, 7, 8, 63, 64, 65, 127, 128, 129, 200]
 WORK = V.BUILD / "c18"
 
-FMT16_FINDING = ("formatState(base 16) prints a nibble value 10..15 with `s << v` on a decimal stream, "
-                 "i.e. as two decimal digits: 16-bit 0x00AB and 0x1011 both format as \"1011\" "
-                 "(Node_Constant::attemptInferOutputName uses it)")
+# Confirmed deviations of the unchanged tree from the array-of-bits reading (formatting / literal
+# parsing only; see Properties_C18.v `..._refuted`).  They are probed on the real library on every
+# run; reported as KNOWN-FINDING when KNOWN_FINDINGS.txt has a matching `known:` line (matched on
+# `key`), otherwise recorded in the evidence and printed as NOTE.  Any OTHER oracle mismatch is a violation.
+FINDINGS = {
+    "fmt16": dict(
+        key="formatState",
+        text=("formatState(base 16) prints a nibble value 10..15 with `s << v` on a decimal stream, "
+              "i.e. as two decimal digits: 16-bit 0x00AB and 0x1011 both format as \"1011\" "
+              "(Node_Constant::attemptInferOutputName uses it)"),
+        probe=["S probe 2 1", "resize 0 16", "setrange 0 1 0 16 1", "insw 0 0 0 16 ab", "fmt 0 16 1",
+               "insw 0 0 0 16 1011", "fmt 0 16 1", "E"]),
+    "octal22": dict(
+        key="octal",
+        text=("parseBitVector rejects valid octal literals with 22 or more digits: "
+              "parseBitVector(\"o0000000000000000000000\") throws the HCL_ASSERT of insertNonStraddling "
+              "(BitVectorState.h:925) because octal digit 21 occupies bits 63..65; 21 digits parse"),
+        probe=["S probe 2 1", "parse 0 o0000000000000000000000", "resize 0 1", "parse 0 o000000000000000000000", "E"]),
+}
 
 
 # --------------------------------------------------------------------------
@@ -530,13 +546,24 @@ def oracle_run(exe, lines, tag, timeout=600):
     return mm, rc, out
 
 
+def finding_of(m):
+    """classify an oracle mismatch as one of the confirmed text-level findings, else None"""
+    t = m["op"].split()
+    if t[0] == "fmt" and t[2] == "16" and m["what"] == "result":
+        exp = m["expected"].strip('"')
+        dec = "".join(str(int(c, 16)) if c != "X" else "X" for c in exp)
+        if dec == m["observed"].strip('"'):
+            return "fmt16"
+    if t[0] == "parse" and len(t) == 3 and re.match(r"^\d*o[0-7xX]{22,}$", t[2]):
+        if m["what"] == "result" and m["expected"] == "1" and m["observed"] == "0":
+            return "octal22"
+        if m["what"] == "contents-after":
+            return "octal22"      # the oracle register holds the parsed value, the real one is unchanged
+    return None
+
+
 def is_fmt16_finding(m):
-    """the confirmed formatting defect (decimal digits for hex nibbles), not a container defect"""
-    if not m["op"].startswith("fmt ") or m["op"].split()[2] != "16":
-        return False
-    exp = m["expected"].strip('"')
-    dec = "".join(str(int(c, 16)) if c != "X" else "X" for c in exp)
-    return dec == m["observed"].strip('"')
+    return finding_of(m) is not None
 
 
 def shrink(exe, seq_lines, fail_idx):
@@ -573,6 +600,7 @@ def main():
     if "--build-only" in sys.argv:
         sys.exit(0 if model else 2)
     rep = V.Report(CID)
+    rep.t0 = t0
     rep.add_proof(res)
     WORK.mkdir(parents=True, exist_ok=True)
     forb = V.scan_forbidden()
@@ -662,6 +690,7 @@ def main():
     rep.cov["result_lines_compared"] = nlines
     rep.cov["class_histogram"] = dict(sorted(g.hist.items()))
     rep.cov["exhaustive"] = False
+    rep.cov["grid_exhaustive"] = exhaustive_grid
     rep.cov["corpus_files"] = [os.path.basename(c) for c in corpus]
     rep.assumptions += [
         "the Coq model BvsDefs.v is a hand transcription of BitVectorState.h/.cpp and BitManipulation.h; its agreement with the code is established by this run's differential comparison only",
@@ -673,19 +702,20 @@ def main():
     if bmi:
         tie_broken = (tie_broken or "") + " harness compiled with __BMI__: the modelled generic templates are not the compiled ones"
 
-    # ---- the confirmed formatting finding: probe it on the real library every run ----
-    probe = ["S probe 2 1", "resize 0 16", "setrange 0 1 0 16 1", "insw 0 0 0 16 ab", "fmt 0 16 1", "insw 0 0 0 16 1011", "fmt 0 16 1", "E"]
-    pm, _, pout = oracle_run(exe, probe, "probe")
-    if any(is_fmt16_finding(m) for m in pm):
-        known, fixed = V.known_findings(CID)
-        hit = [k for k in known if "formatState" in k]
-        if hit:
-            rep.known(hit[0])
+    # ---- confirmed findings: probe them on the real library every run ----
+    known, fixed = V.known_findings(CID)
+    for fid, fd in FINDINGS.items():
+        pm, _, pout = oracle_run(exe, fd["probe"], "probe_" + fid)
+        if any(finding_of(m) == fid for m in pm):
+            hit = [k for k in known if fd["key"] in k]
+            if hit:
+                rep.known(hit[0])
+            else:
+                rep.cov.setdefault("findings_without_known_line", []).append(fd["text"])
+                print("NOTE property=C18 confirmed finding on the real library (no matching `known:` line in "
+                      "KNOWN_FINDINGS.txt, therefore not gating): " + fd["text"])
         else:
-            rep.cov["findings_without_known_line"] = [FMT16_FINDING]
-            print("NOTE property=C18 confirmed finding (no `known:` line in KNOWN_FINDINGS.txt, not gating): " + FMT16_FINDING)
-    else:
-        rep.cov["fmt16_finding_present"] = False
+            rep.cov.setdefault("findings_no_longer_present", []).append(fid)
 
     # ---- search mode ----
     if not res["ok"] or tie_broken:
